@@ -48,6 +48,8 @@ def constrain(w, ent, rng):
         w = setbits(w, hi, lo, v)
     for z in ent.get('_zero', []):
         w &= ~(1 << z)
+    for z in ent.get('_one', []):
+        w |= 1 << z
     pre = ent.get('_pre')
     if pre == 'msb_ge_lsb':
         lsb, msb = sorted([rng.randrange(32), rng.randrange(32)])
@@ -91,6 +93,66 @@ def constrain(w, ent, rng):
     elif pre == 'imm5t_nz':
         if bits(w, 14, 12) == 0 and bits(w, 7, 6) == 0:
             w |= 1 << 6
+    elif pre == 'list8_nz':
+        if bits(w, 7, 0) == 0:
+            w |= 1 << rng.randrange(8)
+    elif pre in ('list13_2', 'list13_2pm', 'list16_2'):
+        top = 15 if pre == 'list16_2' else 12
+        while bin(bits(w, top, 0)).count('1') < 2:
+            w |= 1 << rng.randrange(13)
+        if pre == 'list13_2pm' and bits(w, 15, 15) and bits(w, 14, 14):
+            w &= ~(1 << 14)
+    elif pre in ('dm_low', 'add_t2', 'mov_t1', 'cmp_t2'):
+        d = rng.randrange(13)
+        m = rng.randrange(13)
+        if pre == 'cmp_t2' and d < 8 and m < 8:
+            d = rng.randrange(8, 13)
+        w = setbits(setbits(w, 7, 7, d >> 3), 2, 0, d & 7)
+        if pre != 'dm_low':
+            w = setbits(w, 6, 3, m)
+    elif pre == 'rm63_low':
+        w = setbits(w, 6, 3, rng.randrange(13))
+    elif pre == 'pw_t':
+        if not (bits(w, 24, 24) or bits(w, 21, 21)):
+            w |= 1 << 24
+    elif pre in ('dual_a', 'dual_lit_a', 'dual_ex_a', 'strexd_a'):
+        tt = rng.choice([0, 2, 4, 6, 8, 10, 12])
+        rest = [r for r in range(13) if r not in (tt, tt + 1)]
+        n, m = rng.sample(rest, 2)
+        if pre == 'strexd_a':
+            w = setbits(setbits(setbits(w, 3, 0, tt), 19, 16, n), 15, 12, m)
+        else:
+            w = setbits(setbits(w, 15, 12, tt), 19, 16, n)
+            if pre == 'dual_a':
+                w = setbits(w, 3, 0, m)
+                if not bits(w, 24, 24) and bits(w, 21, 21):
+                    w &= ~(1 << 21)
+            elif pre == 'dual_lit_a':
+                w = (w | (1 << 24)) & ~(1 << 21)
+    elif pre == 'pw_lit_t':
+        w = (w | (1 << 24)) & ~(1 << 21)
+    elif pre in ('msr_app', 'msr_app_t', 'msr_sys', 'msr_sys_t'):
+        hi, lo = {'msr_app': (19, 18), 'msr_app_t': (11, 10), 'msr_sys': (19, 16), 'msr_sys_t': (11, 8)}[pre]
+        if bits(w, hi, lo) == 0:
+            w |= 1 << rng.randrange(lo, hi + 1)
+    elif pre in ('cps_a', 'cps_t2'):
+        (ih, il), mb, (ah, al) = {'cps_a': ((19, 18), 17, (8, 6)), 'cps_t2': ((10, 9), 8, (7, 5))}[pre]
+        if rng.random() < 0.7:
+            imod, aif, mm = rng.choice([2, 3]), rng.randrange(1, 8), rng.getrandbits(1)
+            mode = rng.choice([16, 17, 18, 19, 23, 27, 31]) if mm else 0
+        else:
+            imod, aif, mm, mode = 0, 0, 1, rng.choice([16, 17, 18, 19, 23, 27, 31])
+        w = setbits(setbits(setbits(setbits(w, ih, il, imod), mb, mb, mm), ah, al, aif), 4, 0, mode)
+    elif pre == 'cps_t1':
+        if bits(w, 2, 0) == 0:
+            w |= 1 << rng.randrange(3)
+    elif pre in ('cp_ok', 'ldc', 'ldc_lit'):
+        if bits(w, 11, 9) == 5:
+            w = setbits(w, 11, 8, rng.choice([0, 1, 7, 14, 15]))
+        if pre == 'ldc' and not (bits(w, 24, 24) or bits(w, 23, 23) or bits(w, 21, 21)):
+            w |= 1 << 23
+        if pre == 'ldc_lit':
+            w = (w | (1 << 24)) & ~(1 << 21)
     return w
 
 
